@@ -230,6 +230,28 @@ let lr_inst (c : case) : LeftRightDefs.state inst =
     pctag = (fun st t -> let p = st.th (nat_of_int t) in if Obj.is_int (Obj.repr p) then "i" ^ string_of_int (Obj.magic p : int) else string_of_int (Obj.tag (Obj.repr p)));
     nm }
 
+(* ---------------------------------------------------------------- vyukov bounded queue *)
+let simple_pctag th st t = let p = th st (nat_of_int t) in if Obj.is_int (Obj.repr p) then "i" ^ string_of_int (Obj.magic p : int) else string_of_int (Obj.tag (Obj.repr p))
+let vyu_inst (c : case) : VyukovDefs.state inst =
+  let open VyukovDefs in
+  let cap = n_of_int (int_of_string (cfg_get c "cap" "2")) in
+  let nm = {
+    named = (fun i -> if i = 0 then "enq" else if i = 1 then "deq" else "cell" ^ string_of_int (i - 10));
+    opname = (function 0 -> "push" | 1 -> "pop" | 2 -> "pushw" | 3 -> "popw" | _ -> "?");
+    resname = (fun r -> match List.map int_of_n r with [1] -> "ok" | [1; _] -> string_of_n (List.nth r 1) | [0] -> "full" | [3] -> "empty" | [2] -> "wfail" | _ -> "?");
+    note = no_note;
+  } in
+  { init = VyukovDefs.init;
+    idle = (fun st t -> match st.th (nat_of_int t) with Idle -> true | _ -> false);
+    start = (fun st t (name, args) ->
+      let o = match name, args with
+        | "push", [v] -> OPush (false, n_of_string v) | "pushw", [v] -> OPush (true, n_of_string v)
+        | "popw", _ -> OPop true | _ -> OPop false in
+      match VyukovDefs.step cap st (Start (nat_of_int t, o)) with Some (s', _) -> Some s' | None -> None);
+    step = (fun st t _ -> VyukovDefs.step cap st (Step (nat_of_int t)));
+    pctag = simple_pctag (fun st -> st.th);
+    nm }
+
 let () =
   let model = Sys.argv.(1) and cmd = Sys.argv.(2) and path = Sys.argv.(3) in
   let c = parse_case path in
@@ -255,4 +277,5 @@ let () =
   | "chase" -> go (chase_inst c)
   | "seqlock" -> go (seqlock_inst c)
   | "lr" -> go (lr_inst c)
+  | "vyu" -> go (vyu_inst c)
   | _ -> prerr_endline ("unknown model " ^ model); exit 2
